@@ -156,15 +156,23 @@ def t_digest():
 
 def t_sharding_partitions_the_units():
     class D(drv.Driver):
-        def __init__(self, shard):
-            self.shard = shard
+        def __init__(self, shard, mode="jit", tier="quick"):
+            self.shard, self.mode, self.tier = shard, mode, tier
             self.src = [("m", "K%d" % i) for i in range(40)] + [("m", "IKinSpace"), ("m", "SPFKinSpaceR")]
-    units = ["K%d" % i for i in range(40)] + ["IKinSpace", "SPFKinSpaceR", "entries"]
-    for n in (1, 2, 5, 6):
-        owners = {u: [i for i in range(n) if D((i, n)).mine(u)] for u in units}
-        assert all(len(o) == 1 for o in owners.values()), owners
+    kernels = ["K%d" % i for i in range(40)] + ["IKinSpace", "SPFKinSpaceR"]
+    for mode, tier in (("jit", "quick"), ("boundscheck", "thorough"), ("nojit", "quick"), ("nojit", "thorough")):
+        units = kernels + D(None, mode, tier).entry_units()
+        assert ("entries" in units) == (mode != "nojit") and (len(units) > 50) == (mode == "nojit")
+        for n in (1, 2, 3, 6):
+            owners = {u: [i for i in range(n) if D((i, n), mode, tier).mine(u)] for u in units}
+            assert all(len(o) == 1 for o in owners.values()), owners
+            assert n == 1 or len({o[0] for o in owners.values()}) == n           # every process gets work
     assert D(None).mine("anything")
     assert [i for i in range(6) if D((i, 6)).mine("IKinSpace")] != [i for i in range(6) if D((i, 6)).mine("SPFKinSpaceR")]
+    # a compiled mode keeps all entry points in the process that owns "entries"; the interpreter deals them out per object
+    assert D((2, 6)).mine_entries("arm:6R@I") == D((2, 6)).mine("entries")
+    own = [i for i in range(3) if D((i, 3), "nojit").mine_entries("tm")]
+    assert len(own) == 1 and len({tuple(D((i, 3), "nojit").mine_entries(o) for i in range(3)) for o in ("tm", "arm:6R@I", "arm:6R@B0", "sp:std@I", "arm:gen:3R@I")}) > 1
 
 
 def t_source_enumeration():
